@@ -164,4 +164,45 @@ CHECKS["C19"] = dict(
          "every sample. Quick: all pairs of <= 6 bits plus random 8-bit ones; thorough: all 65536 (value,mask) pairs x 256 samples, all "
          "binary strings <= 8 digits, hex/octal <= 3 digits, arrays for all 6561 in-mask pairs.",
     design_ref="DESIGN.md section 3, C19", note=_COV_NOTE)
+
+CHECKS["C09"] = dict(
+    level="exploration",
+    technique="cross-process differential runner: one scenario executed in fresh interpreters that differ in exactly one nuisance factor, value traces compared with the baseline; in-process snapshot/restore replays",
+    text="Scenarios covering every consumer of randomness (swizzling of > 4 fields, enums, dist, solve_order, random-size lists, soft "
+         "fallback, nested objects, free-standing vsc.randomize(randstate=)), with an explicit RandState seed or Python's global seed, are "
+         "run in 8 (quick) / 16 (thorough) interpreters: PYTHONHASHSEED 0/1/2/random, unrelated objects randomized in between (own and "
+         "default state), random.random()/seed() on the global module, GC churn, extra class definitions, debug=1, solve_fail_debug=1, "
+         "VSC_DEBUG, VSC_SOLVEFAIL_DEBUG, VSC_CAPTURE_SRCINFO, @randobj(srcinfo=True). Traces must be identical. In every process "
+         "get_randstate() is taken at a random step (also before the object ever had a state) and restored twice; each replay must "
+         "reproduce the values that followed.",
+    design_ref="DESIGN.md section 3, C09; section 2.3 M7", note="Finite set of nuisance factors (listed in the evidence). No reference model needed: the oracle is equality of traces.")
+CHECKS["C16"] = dict(
+    level="fault_enumeration",
+    technique="fault injection at user-callback positions + idle-state/leak monitor on the process-wide construction stacks and the object's model + twin comparison of the scripted continuation against a pristine session",
+    text="Fault positions enumerated per program: each statement index of a constraint body at construction; raise inside randomize_with "
+         "at depth plain / if_then / foreach / implies; pre_randomize and post_randomize of each object of the tree; calls made "
+         "unsatisfiable (randomize_with, vsc.randomize_with, with solve_fail_debug) on programs with foreach / dist rewrites active. "
+         "Right after the faulted call: the five shared stacks are empty, no field model holds a solver handle, no temporary "
+         "ConstraintOverrideModel remains, the constraint-tree fingerprint is unchanged. Then both the faulted and a pristine session are "
+         "re-seeded and run the same continuation (randomizations, new instances, definition of a NEW class using solve_order): traces "
+         "must be equal.",
+    design_ref="DESIGN.md section 3, C16; section 2.3 M4", note="The pristine twin runs first in the same worker from a reset construction state; values are compared on successful continuation calls.")
+CHECKS["C17"] = dict(
+    level="exploration",
+    technique="runtime monitor: callback recorder (sequence number, object identity, phase, visible values) checked against the reference set of objects that are random in the call; solver-formula monitor for the value written by pre_randomize",
+    text="Object trees with random and non-random members at every level and lists of objects, every class carrying recording "
+         "pre_randomize / post_randomize (pre_randomize also writes fresh values into non-random fields that constraints use). Per call "
+         "(randomize, randomize_with, vsc.randomize on the root / a sub-object / plain fields, randomize on a sub-object): exactly one pre "
+         "and one post for the top object and every sub-object reachable through random members, none below a non-random member, every "
+         "pre before every post, post sees the final values, and the lowered formula uses the values pre_randomize wrote.",
+    design_ref="DESIGN.md section 3, C17; section 2.3 M5", note=_SOLVER_NOTE)
+CHECKS["C20"] = dict(
+    level="exploration",
+    technique="choice-point injection into RandState: complete enumeration of the real randomize() yields the exact joint distribution; metamorphic comparison of the earlier variable's marginal",
+    text="Metamorphic pairs of programs with solve_order (a before b, optionally b before c, lists of earlier fields, directive in its own "
+         "block) that differ only in how many values of the later variable accompany each value of the earlier one. Each program is "
+         "enumerated completely over the RandState choice points. Judged: every feasible value of a has probability > 0; the marginal is "
+         "uniform when feasible(a) fills the range the library inferred for a (read at the hook); the marginal of a is IDENTICAL in the two "
+         "programs; every path satisfies the constraints; no path of a satisfiable system raises.",
+    design_ref="DESIGN.md section 3, C20; section 2.3 M3", note="Only complete enumerations are judged (<= 8000 paths per program in the quick tier, 100000 thorough).")
 NOT_YET = {}
